@@ -552,7 +552,15 @@ pub fn run_scenario(
     // ---- expansion to the real chunk size --------------------------------------------------------
     let mut pos_of: Vec<usize> = (0..members.len()).collect(); // index of model member x in the real batch
     if let Some((model_mb, real_mb)) = scale {
-        if let Some(fill) = sc["fill"].as_array().and_then(|a| a.first()) {
+        if let Some(fill0) = sc["fill"].as_array().and_then(|a| a.first()) {
+            // the fillers agree with the FIRST member's verifier-side parameters (bit length, degree, generators), so the
+            // real batch is consistent exactly when the model batch is
+            let mut fill = fill0.clone();
+            let v0 = &members[0]["v"];
+            fill["n"] = v0["n"].clone();
+            fill["t"] = v0["t"].clone();
+            fill["v"]["n"] = v0["n"].clone();
+            fill["v"]["t"] = v0["t"].clone();
             let fsc = json!({"members": [fill], "mode": "VerifyOnly", "skew": [0,0,0], "viabytes": false});
             let (fo, fb) = run_scenario(ctx, &fsc, sidx ^ 0xf111, None, None);
             if fo.prove != "ok" {
@@ -561,7 +569,7 @@ pub fn run_scenario(
                 return (out, built);
             }
             let fbytes = fb[0].proof_bytes.clone().unwrap();
-            let fparams = ctx.params(fb[0].n, fb[0].cap, fb[0].t, 0, 0).unwrap();
+            let fparams = ctx.params(fb[0].n, fb[0].cap, fb[0].t, v0["pgH"].as_u64().unwrap_or(0), v0["pgG"].as_u64().unwrap_or(0)).unwrap();
             let fstmt = RangeStatement::init(fparams, fb[0].commitments.clone(), fb[0].proms.clone(), None).unwrap();
             let flabel = fb[0].label;
             let k = members.len();
